@@ -13,7 +13,7 @@ EXPLANATION = (
     "(R3) the 'nothing to do' decision and everything else in cmd_push is independent of verbosity (flag non-interference). "
     "(R4) name resolution and loading consult the disk only for names the current invocation has not touched (the in-memory "
     "state of a file deleted, created or renamed earlier in the same push shadows the stale disk state, as a separate later "
-    "invocation would see it). Not decided: equality of trees across different splittings (content, history)."
+    "invocation would see it). (R8) the in-memory record of a name resolves a two-name file patch exactly as the disk would had the run been cut there (four-row table). Not decided: equality of trees across different splittings (content, history)."
 )
 LEVEL_NOTE = "Undecided: equality of the resulting trees for different splittings of a series."
 
